@@ -53,7 +53,7 @@ Definition judge1_v (fx : variant) (c : case) : verdict :=
                    end;
      v_class := guard_class fx c;
      v_spec := match c_obs c with
-               | None => true        (* the property constrains successful parses *)
+               | None => negb (must_succeed fuel p (c_input c))   (* a clean, determinable selection must be accepted *)
                | Some cfg => spec_ok fuel p (top_level (c_input c)) cfg
                end |}.
 
